@@ -326,6 +326,11 @@ func (w *World) verifyEscapedClosures(x *Exec, fn *ssa.Function, c *FuncContract
 						x.refFacts(st, v)
 						args = append(args, v)
 					}
+					// captured variables: unknown cells that exist from the start
+					// (created lazily they would exist on some paths only)
+					for _, fv := range af.FreeVars {
+						fr.val(st, fv)
+					}
 					fr.entry = st.clone()
 					fr.run(st, args)
 				}()
